@@ -236,6 +236,12 @@ func mutators() []mutator {
 		{"A.unannotated-helper-method", func(u *scen.Unit, id string) {
 			u.Controllers[0].Methods = append(u.Controllers[0].Methods, scen.Method{Name: "helper" + id, Err: "-"})
 		}},
+		{"nested-package-sorting-between-the-files-of-p", func(u *scen.Unit, id string) {
+			// <id>/p/d/ sorts after ctl_*.go and before extra.go of <id>/p
+			c := scen.Controller{Name: "D" + id, Pkg: id + "/p/d", Prefix: scen.S("/" + id + "/d"), Tag: scen.S("TD" + id)}
+			c.Methods = []scen.Method{method("D"+id+"One", "GET", "/one", "/"+id+"/d")}
+			u.Controllers = append(u.Controllers, c)
+		}},
 		{"B.no-leading-slash-route", func(u *scen.Unit, id string) { u.Controllers[1].Methods[0].Route = scen.S("one") }},
 	}
 }
